@@ -385,7 +385,17 @@ impl AsyncRead for SimReader {
                 f.2 = true;
                 core.stats.read_err += 1;
                 core.ev(Ev::ReadErr { pos, cap, kind: f.1 });
-                return Poll::Ready(Err(io::Error::new(kind_of(f.1), "injected read fault")));
+                // the payload of the injected error varies with the position: a plain message, an
+                // io::Error of another kind wrapped inside, or (as a tunnelling transport would
+                // produce) one of the codec's own error values. Only the *kind* may matter.
+                let kind = kind_of(f.1);
+                let err = match pos % 4 {
+                    0 => io::Error::new(kind, "injected read fault"),
+                    1 => io::Error::new(kind, io::Error::new(io::ErrorKind::UnexpectedEof, "inner")),
+                    2 => io::Error::new(kind, mqtt_proto::Error::InvalidHeader),
+                    _ => io::Error::new(kind, mqtt_proto::Error::IoError(io::ErrorKind::UnexpectedEof, "eof".to_owned())),
+                };
+                return Poll::Ready(Err(err));
             }
         }
         let left = this.data.len() - pos;
